@@ -335,11 +335,14 @@ def parse_terse(out, names):
 # ------------------------------------------------------------------------------------------
 def extract_playback_tests(out):
     """Returns list of (test_fn_name, source) from `--concrete-playback=print` output."""
-    tests = []
+    tests, seen = [], set()
     for m in re.finditer(r"```\n(.*?)```", out, re.S):
         src = m.group(1)
         fm = re.search(r"fn (kani_concrete_playback_\w+)\(", src)
-        if fm:
+        # Kani prints the same test once per failed check / satisfied cover that shares the assignment: keep one (a duplicate
+        # definition does not compile, and an uncompilable replay is not a reproduction)
+        if fm and fm.group(1) not in seen:
+            seen.add(fm.group(1))
             tests.append((fm.group(1), src))
     return tests
 
